@@ -1,13 +1,19 @@
 //! Entry points x option vectors x targets of the C01 workload.
 //!
-//! The owned targets come from `vcore::targets` (through its fn-pointer table);
-//! the borrowed `&str` struct, the `RcAnchor` struct and the recursive types
-//! used by the nesting probes are defined here.
+//! Every public deserialization entry point is reachable through `Entry`: the
+//! `*_with_options` functions one by one, the option-less wrappers together
+//! (`Defaults`), and — for targets that implement them — the garde (`*_valid`)
+//! and validator (`*_validate`) families behind the same `Entry` values.
+//! Targets: the `vcore::targets` types plus borrowed, anchor-wrapper, `Spanned`,
+//! serde-attribute (tagged / untagged / flatten) and recursive types defined here.
 
 use serde::Deserialize;
 use serde::de::DeserializeOwned;
 use serde_saphyr::{Budget, DuplicateKeyPolicy, Error, Options, RcAnchor};
 use std::borrow::Cow;
+use std::collections::BTreeMap;
+use validator::Validate as _;
+use vcore::targets as vt;
 
 // ------------------------------------------------------------------ entry points
 
@@ -18,23 +24,29 @@ pub enum Entry {
     ReaderC1,
     ReaderC7,
     FromMultiple,
+    FromSliceMultiple,
     ReadIter,
+    ReadAbandon,
     WithDeStr,
     WithDeSlice,
     WithDeReader,
+    Defaults,
 }
 
 impl Entry {
-    pub const ALL: [Entry; 9] = [
+    pub const ALL: [Entry; 12] = [
         Entry::FromStr,
         Entry::FromSlice,
         Entry::ReaderC1,
         Entry::ReaderC7,
         Entry::FromMultiple,
+        Entry::FromSliceMultiple,
         Entry::ReadIter,
+        Entry::ReadAbandon,
         Entry::WithDeStr,
         Entry::WithDeSlice,
         Entry::WithDeReader,
+        Entry::Defaults,
     ];
     pub fn name(self) -> &'static str {
         match self {
@@ -43,10 +55,13 @@ impl Entry {
             Entry::ReaderC1 => "from_reader/1-byte-chunks",
             Entry::ReaderC7 => "from_reader/7-byte-chunks",
             Entry::FromMultiple => "from_multiple",
+            Entry::FromSliceMultiple => "from_slice_multiple",
             Entry::ReadIter => "read(iterator, drained)",
+            Entry::ReadAbandon => "read(iterator, dropped after the first item)",
             Entry::WithDeStr => "with_deserializer_from_str",
             Entry::WithDeSlice => "with_deserializer_from_slice",
             Entry::WithDeReader => "with_deserializer_from_reader",
+            Entry::Defaults => "option-less wrappers (from_str, from_slice, from_reader, from_multiple, from_slice_multiple, read, with_deserializer_from_*)",
         }
     }
     pub fn from_name(n: &str) -> Option<Entry> {
@@ -58,16 +73,17 @@ impl Entry {
     }
     /// Entry points that pull the input through `std::io::Read`.
     pub fn is_reader(self) -> bool {
-        matches!(self, Entry::ReaderC1 | Entry::ReaderC7 | Entry::ReadIter | Entry::WithDeReader)
+        matches!(self, Entry::ReaderC1 | Entry::ReaderC7 | Entry::ReadIter | Entry::ReadAbandon | Entry::WithDeReader | Entry::Defaults)
     }
 }
 
 // ------------------------------------------------------------------ option vectors
 
 pub const N_OPTVEC: usize = 7;
-/// The four vectors of DESIGN §5 C01 are 0..4; 4..7 are extra vectors used by
-/// the mutational / pathological parts (robotics expressions, crop radii 0 / 2 /
-/// 10^6, tiny alias limits).
+/// Indices 0..7 are fixed vectors (0..4 are the four of DESIGN §5 C01). An index
+/// >= `OPT_BITS_BASE` encodes an arbitrary configuration in its low bits (see
+/// `optvec`), so that random option vectors stay replayable from the number.
+pub const OPT_BITS_BASE: usize = 1 << 20;
 pub const OPTVEC_DESC: [&str; N_OPTVEC] = [
     "default",
     "budget off + LastWins + no_schema + strict_booleans + legacy_octal_numbers",
@@ -78,9 +94,97 @@ pub const OPTVEC_DESC: [&str; N_OPTVEC] = [
     "crop_radius 10^6 + alias limits (replayed 3, stack 1, per-anchor 1) + LastWins",
 ];
 
+pub fn opt_desc(i: usize) -> String {
+    if i < N_OPTVEC {
+        OPTVEC_DESC[i].to_string()
+    } else {
+        format!("bit-encoded configuration {:#x}: {:?}", i - OPT_BITS_BASE, optvec(i))
+    }
+}
+
+fn budget_report_sink(_r: &serde_saphyr::budget::BudgetReport) {}
+
 #[allow(deprecated)]
 pub fn optvec(i: usize) -> Options {
     let mut o = Options::default();
+    if i >= OPT_BITS_BASE {
+        // bit-encoded configuration: every public field of Options / Budget / AliasLimits takes part
+        let b = i - OPT_BITS_BASE;
+        let bit = |k: usize| (b >> k) & 1 == 1;
+        o.duplicate_keys = match b & 3 {
+            0 => DuplicateKeyPolicy::Error,
+            1 => DuplicateKeyPolicy::FirstWins,
+            _ => DuplicateKeyPolicy::LastWins,
+        };
+        o.legacy_octal_numbers = bit(2);
+        o.strict_booleans = bit(3);
+        o.ignore_binary_tag_for_string = bit(4);
+        o.angle_conversions = bit(5);
+        o.no_schema = bit(6);
+        o.with_snippet = !bit(7);
+        o.crop_radius = [64, 0, 1, 2, 3, 7, 1_000_000, usize::MAX][(b >> 8) & 7];
+        o.budget = match (b >> 11) & 3 {
+            0 => Some(Budget::default()),
+            1 => None,
+            2 => Some(Budget {
+                max_reader_input_bytes: Some(48),
+                max_events: 20,
+                max_aliases: 2,
+                max_anchors: 2,
+                max_depth: 3,
+                max_documents: 2,
+                max_nodes: 9,
+                max_total_scalar_bytes: 24,
+                max_merge_keys: 1,
+                enforce_alias_anchor_ratio: true,
+                alias_anchor_min_aliases: 1,
+                alias_anchor_ratio_multiplier: 1,
+            }),
+            _ => Some(Budget {
+                max_reader_input_bytes: None,
+                max_events: 0,
+                max_aliases: 0,
+                max_anchors: 0,
+                max_depth: 0,
+                max_documents: 0,
+                max_nodes: 0,
+                max_total_scalar_bytes: 0,
+                max_merge_keys: 0,
+                enforce_alias_anchor_ratio: false,
+                alias_anchor_min_aliases: 0,
+                alias_anchor_ratio_multiplier: 0,
+            }),
+        };
+        match (b >> 13) & 3 {
+            1 => {
+                o.alias_limits.max_total_replayed_events = 0;
+                o.alias_limits.max_replay_stack_depth = 0;
+                o.alias_limits.max_alias_expansions_per_anchor = 0;
+            }
+            2 => {
+                o.alias_limits.max_total_replayed_events = 5;
+                o.alias_limits.max_replay_stack_depth = 2;
+                o.alias_limits.max_alias_expansions_per_anchor = 2;
+            }
+            3 => {
+                // (never all three unlimited: with the limits off an alias bomb is allowed to take
+                // exponential time, and no bound on progress is stated for that configuration)
+                o.alias_limits.max_total_replayed_events = 2_000;
+                o.alias_limits.max_replay_stack_depth = usize::MAX;
+                o.alias_limits.max_alias_expansions_per_anchor = usize::MAX;
+            }
+            _ => {}
+        }
+        if bit(15) {
+            o.budget_report = Some(budget_report_sink);
+        }
+        if bit(16) {
+            o = o.with_budget_report(|r| {
+                std::hint::black_box(&r);
+            });
+        }
+        return o;
+    }
     match i {
         1 => {
             o.budget = None;
@@ -124,6 +228,9 @@ pub fn optvec(i: usize) -> Options {
     o
 }
 
+/// Number of bits a random bit-encoded option vector uses.
+pub const OPT_BITS: usize = 17;
+
 // ------------------------------------------------------------------ result of one call
 
 #[derive(Default)]
@@ -136,9 +243,14 @@ pub struct CallRes {
 
 impl CallRes {
     fn one<T>(r: Result<T, Error>) -> CallRes {
+        let mut c = CallRes::default();
+        c.add(r);
+        c
+    }
+    fn add<T>(&mut self, r: Result<T, Error>) {
         match r {
-            Ok(_) => CallRes { oks: 1, ..Default::default() },
-            Err(e) => CallRes { oks: 0, errs: vec![e], iter_overrun: false },
+            Ok(_) => self.oks += 1,
+            Err(e) => self.errs.push(e),
         }
     }
 }
@@ -203,93 +315,202 @@ pub fn iter_item_bound(input_len: usize) -> usize {
     input_len + 3
 }
 
+/// Drain an iterator with the item bound; after it has returned `None`, poll it
+/// twice more (a finished iterator must stay harmless).
+fn drain<T, I: Iterator<Item = Result<T, Error>>>(mut it: I, input_len: usize) -> CallRes {
+    let max = iter_item_bound(input_len);
+    let mut r = CallRes::default();
+    let mut n = 0usize;
+    loop {
+        match it.next() {
+            None => break,
+            Some(x) => {
+                n += 1;
+                r.add(x);
+                if n >= max {
+                    r.iter_overrun = true;
+                    return r;
+                }
+            }
+        }
+    }
+    for _ in 0..2 {
+        if let Some(x) = it.next() {
+            r.add(x);
+        }
+    }
+    r
+}
+
+fn first_then_drop<T, I: Iterator<Item = Result<T, Error>>>(mut it: I) -> CallRes {
+    let mut r = CallRes::default();
+    if let Some(x) = it.next() {
+        r.add(x);
+    }
+    drop(it);
+    r
+}
+
+// ------------------------------------------------------------------ dispatch
+
+/// One dispatcher per API family (plain / garde `*_valid` / validator `*_validate`).
+macro_rules! dispatcher {
+    ($fname:ident, [$($bound:tt)*], $fs:path, $fsl:path, $fr:path, $fm:path, $fslm:path, $rd:path,
+     defaults: [$dfs:path, $dfsl:path, $dfr:path, $dfm:path, $drd:path], with_de: $with_de:tt) => {
+        fn $fname<T>(entry: Entry, input: &[u8], o: Options) -> Option<CallRes>
+        where
+            T: DeserializeOwned + $($bound)*,
+        {
+            let s = || std::str::from_utf8(input).ok();
+            Some(match entry {
+                Entry::FromStr => {
+                    let r: Result<T, Error> = $fs(s()?, o);
+                    CallRes::one(r)
+                }
+                Entry::FromSlice => {
+                    let r: Result<T, Error> = $fsl(input, o);
+                    CallRes::one(r)
+                }
+                Entry::ReaderC1 => {
+                    let r: Result<T, Error> = $fr(reader(input, 1), o);
+                    CallRes::one(r)
+                }
+                Entry::ReaderC7 => {
+                    let r: Result<T, Error> = $fr(reader(input, 7), o);
+                    CallRes::one(r)
+                }
+                Entry::FromMultiple => {
+                    let r: Result<Vec<T>, Error> = $fm(s()?, o);
+                    CallRes::one(r)
+                }
+                Entry::FromSliceMultiple => {
+                    let r: Result<Vec<T>, Error> = $fslm(input, o);
+                    CallRes::one(r)
+                }
+                Entry::ReadIter => {
+                    let mut rd = reader(input, 5);
+                    drain::<T, _>($rd(&mut rd, o), input.len())
+                }
+                Entry::ReadAbandon => {
+                    let mut rd = reader(input, 4096);
+                    first_then_drop::<T, _>($rd(&mut rd, o))
+                }
+                Entry::Defaults => {
+                    let mut r = CallRes::default();
+                    if let Some(s) = s() {
+                        let x: Result<T, Error> = $dfs(s);
+                        r.add(x);
+                        let x: Result<Vec<T>, Error> = $dfm(s);
+                        r.add(x);
+                    }
+                    let x: Result<T, Error> = $dfsl(input);
+                    r.add(x);
+                    let x: Result<T, Error> = $dfr(reader(input, 64));
+                    r.add(x);
+                    let mut rd = reader(input, 64);
+                    let d = drain::<T, _>($drd(&mut rd), input.len());
+                    r.oks += d.oks;
+                    r.errs.extend(d.errs);
+                    r.iter_overrun |= d.iter_overrun;
+                    dispatcher!(@with_de_defaults $with_de, T, r, input, s);
+                    r
+                }
+                Entry::WithDeStr | Entry::WithDeSlice | Entry::WithDeReader => {
+                    dispatcher!(@with_de $with_de, T, entry, input, o, s)
+                }
+            })
+        }
+    };
+    (@with_de yes, $T:ty, $entry:ident, $input:ident, $o:ident, $s:ident) => {
+        match $entry {
+            Entry::WithDeStr => CallRes::one(serde_saphyr::with_deserializer_from_str_with_options($s()?, $o, |de| <$T>::deserialize(de))),
+            Entry::WithDeSlice => CallRes::one(serde_saphyr::with_deserializer_from_slice_with_options($input, $o, |de| <$T>::deserialize(de))),
+            _ => CallRes::one(serde_saphyr::with_deserializer_from_reader_with_options(reader($input, 3), $o, |de| <$T>::deserialize(de))),
+        }
+    };
+    (@with_de no, $T:ty, $entry:ident, $input:ident, $o:ident, $s:ident) => {
+        return None
+    };
+    (@with_de_defaults yes, $T:ty, $r:ident, $input:ident, $s:ident) => {
+        if let Some(s) = $s() {
+            $r.add(serde_saphyr::with_deserializer_from_str(s, |de| <$T>::deserialize(de)));
+        }
+        $r.add(serde_saphyr::with_deserializer_from_slice($input, |de| <$T>::deserialize(de)));
+        $r.add(serde_saphyr::with_deserializer_from_reader(reader($input, 64), |de| <$T>::deserialize(de)));
+    };
+    (@with_de_defaults no, $T:ty, $r:ident, $input:ident, $s:ident) => {};
+}
+
+fn read_boxed<'a, R: std::io::Read + 'a, T: DeserializeOwned + 'a>(r: &'a mut R) -> Box<dyn Iterator<Item = Result<T, Error>> + 'a> {
+    Box::new(serde_saphyr::read::<R, T>(r))
+}
+
+dispatcher!(
+    own,
+    [Sized],
+    serde_saphyr::from_str_with_options,
+    serde_saphyr::from_slice_with_options,
+    serde_saphyr::from_reader_with_options,
+    serde_saphyr::from_multiple_with_options,
+    serde_saphyr::from_slice_multiple_with_options,
+    serde_saphyr::read_with_options,
+    defaults: [serde_saphyr::from_str, serde_saphyr::from_slice, serde_saphyr::from_reader, serde_saphyr::from_multiple, read_boxed],
+    with_de: yes
+);
+
+fn garde_fsm_default<T: DeserializeOwned + garde::Validate>(s: &str) -> Result<Vec<T>, Error>
+where
+    <T as garde::Validate>::Context: Default,
+{
+    serde_saphyr::from_multiple_valid::<T>(s)
+}
+
+trait GardeOk: garde::Validate<Context = ()> {}
+impl<T: garde::Validate<Context = ()>> GardeOk for T {}
+
+dispatcher!(
+    own_garde,
+    [GardeOk],
+    serde_saphyr::from_str_with_options_valid,
+    serde_saphyr::from_slice_with_options_valid,
+    serde_saphyr::from_reader_with_options_valid,
+    serde_saphyr::from_multiple_with_options_valid,
+    serde_saphyr::from_slice_multiple_with_options_valid,
+    serde_saphyr::read_with_options_valid,
+    defaults: [serde_saphyr::from_str_valid, serde_saphyr::from_slice_valid, serde_saphyr::from_reader_valid, garde_fsm_default, serde_saphyr::read_valid],
+    with_de: no
+);
+
+dispatcher!(
+    own_validator,
+    [validator::Validate],
+    serde_saphyr::from_str_with_options_validate,
+    serde_saphyr::from_slice_with_options_validate,
+    serde_saphyr::from_reader_with_options_validate,
+    serde_saphyr::from_multiple_with_options_validate,
+    serde_saphyr::from_slice_multiple_with_options_validate,
+    serde_saphyr::read_with_options_validate,
+    defaults: [serde_saphyr::from_str_validate, serde_saphyr::from_slice_validate, serde_saphyr::from_reader_validate, serde_saphyr::from_multiple_validate, serde_saphyr::read_validate],
+    with_de: no
+);
+
 // ------------------------------------------------------------------ targets
 
-pub enum Tgt {
-    V(&'static vcore::targets::Target),
-    Own { name: &'static str, call: fn(Entry, &[u8], Options) -> Option<CallRes> },
+pub struct Tgt {
+    pub name: &'static str,
+    pub call: fn(Entry, &[u8], Options) -> Option<CallRes>,
 }
 
 impl Tgt {
     pub fn name(&self) -> &'static str {
-        match self {
-            Tgt::V(t) => t.name,
-            Tgt::Own { name, .. } => name,
-        }
+        self.name
     }
     /// Run one call. `None` = this (entry, target, input) combination does not
     /// exist (a `&str` entry point with invalid UTF-8, a borrowing target with a
-    /// `DeserializeOwned` entry point).
+    /// `DeserializeOwned` entry point, a validating family without closure helpers).
     pub fn call(&self, entry: Entry, input: &[u8], o: Options) -> Option<CallRes> {
-        match self {
-            Tgt::Own { call, .. } => call(entry, input, o),
-            Tgt::V(t) => {
-                let s = || std::str::from_utf8(input).ok();
-                Some(match entry {
-                    Entry::FromStr => CallRes::one((t.from_str)(s()?, o)),
-                    Entry::FromSlice => CallRes::one((t.from_slice)(input, o)),
-                    Entry::ReaderC1 => CallRes::one((t.from_reader)(&mut reader(input, 1), o)),
-                    Entry::ReaderC7 => CallRes::one((t.from_reader)(&mut reader(input, 7), o)),
-                    Entry::FromMultiple => CallRes::one((t.from_multiple)(s()?, o)),
-                    Entry::ReadIter => {
-                        let max = iter_item_bound(input.len());
-                        let items = (t.read_iter)(&mut reader(input, 5), o, max);
-                        let mut r = CallRes { iter_overrun: items.len() >= max, ..Default::default() };
-                        for it in items {
-                            match it {
-                                Ok(_) => r.oks += 1,
-                                Err(e) => r.errs.push(e),
-                            }
-                        }
-                        r
-                    }
-                    Entry::WithDeStr => CallRes::one((t.with_de_str)(s()?, o)),
-                    Entry::WithDeSlice => CallRes::one((t.with_de_slice)(input, o)),
-                    Entry::WithDeReader => CallRes::one((t.with_de_reader)(&mut reader(input, 3), o)),
-                })
-            }
-        }
+        (self.call)(entry, input, o)
     }
-}
-
-fn own<T: DeserializeOwned>(entry: Entry, input: &[u8], o: Options) -> Option<CallRes> {
-    let s = || std::str::from_utf8(input).ok();
-    Some(match entry {
-        Entry::FromStr => CallRes::one(serde_saphyr::from_str_with_options::<T>(s()?, o)),
-        Entry::FromSlice => CallRes::one(serde_saphyr::from_slice_with_options::<T>(input, o)),
-        Entry::ReaderC1 => CallRes::one(serde_saphyr::from_reader_with_options::<_, T>(reader(input, 1), o)),
-        Entry::ReaderC7 => CallRes::one(serde_saphyr::from_reader_with_options::<_, T>(reader(input, 7), o)),
-        Entry::FromMultiple => CallRes::one(serde_saphyr::from_multiple_with_options::<T>(s()?, o)),
-        Entry::ReadIter => {
-            let max = iter_item_bound(input.len());
-            let mut rd = reader(input, 5);
-            let mut r = CallRes::default();
-            let mut n = 0usize;
-            for it in serde_saphyr::read_with_options::<_, T>(&mut rd, o) {
-                n += 1;
-                match it {
-                    Ok(_) => r.oks += 1,
-                    Err(e) => r.errs.push(e),
-                }
-                if n >= max {
-                    r.iter_overrun = true;
-                    break;
-                }
-            }
-            r
-        }
-        Entry::WithDeStr => {
-            CallRes::one(serde_saphyr::with_deserializer_from_str_with_options(s()?, o, |de| T::deserialize(de)))
-        }
-        Entry::WithDeSlice => {
-            CallRes::one(serde_saphyr::with_deserializer_from_slice_with_options(input, o, |de| T::deserialize(de)))
-        }
-        Entry::WithDeReader => CallRes::one(serde_saphyr::with_deserializer_from_reader_with_options(
-            reader(input, 3),
-            o,
-            |de| T::deserialize(de),
-        )),
-    })
 }
 
 /// Borrowing target: only the entry points that hand out `'de` data exist for it.
@@ -397,36 +618,317 @@ pub struct RcNest {
     b: Vec<RcAnchor<RcNest>>,
 }
 
-static OWN: &[Tgt] = &[
-    Tgt::Own { name: "Borrowed{&str,Cow,&[u8],Vec<&str>}", call: borrowed },
-    Tgt::Own { name: "RcDoc{RcAnchor,ArcAnchor,RcWeakAnchor}", call: own::<RcDoc> },
-    Tgt::Own { name: "&str", call: borrowed_str },
-    Tgt::Own { name: "DeepMap", call: own::<DeepMap> },
-    Tgt::Own { name: "DeepSeq", call: own::<DeepSeq> },
-    Tgt::Own { name: "EnumNest", call: own::<EnumNest> },
-    Tgt::Own { name: "RcNest", call: own::<RcNest> },
-    Tgt::Own { name: "MapStrVecI64", call: own::<std::collections::BTreeMap<String, Vec<i64>>> },
-    Tgt::Own { name: "f64", call: own::<f64> },
-    Tgt::Own { name: "MapStrDeepSeq", call: own::<std::collections::BTreeMap<String, DeepSeq>> },
+// ---- recursive anchor wrappers (strong parent + weak back references)
+
+#[derive(Deserialize)]
+#[allow(dead_code)]
+pub struct King {
+    #[serde(default)]
+    a: Option<String>,
+    #[serde(default)]
+    k1: Option<serde_saphyr::RcRecursion<King>>,
+    #[serde(default)]
+    v: Vec<serde_saphyr::RcRecursion<King>>,
+}
+
+#[derive(Deserialize)]
+#[allow(dead_code)]
+pub struct Kingdom {
+    #[serde(default)]
+    a: Option<serde_saphyr::RcRecursive<King>>,
+    #[serde(default)]
+    k1: Option<serde_saphyr::RcRecursive<King>>,
+    #[serde(default)]
+    k2: Option<serde_saphyr::RcRecursion<King>>,
+}
+
+#[derive(Deserialize)]
+#[allow(dead_code)]
+pub struct ArcKing {
+    #[serde(default)]
+    a: Option<String>,
+    #[serde(default)]
+    k1: Option<serde_saphyr::ArcRecursion<ArcKing>>,
+}
+
+#[derive(Deserialize)]
+#[allow(dead_code)]
+pub struct ArcKingdom {
+    #[serde(default)]
+    a: Option<serde_saphyr::ArcRecursive<ArcKing>>,
+    #[serde(default)]
+    k1: Option<serde_saphyr::ArcWeakAnchor<String>>,
+    #[serde(default)]
+    k2: Option<serde_saphyr::ArcAnchor<Vec<serde_saphyr::ArcAnchor<String>>>>,
+}
+
+// ---- Spanned
+
+#[derive(Deserialize)]
+#[allow(dead_code)]
+pub struct SpannedDoc {
+    #[serde(default)]
+    a: Option<serde_saphyr::Spanned<String>>,
+    #[serde(default, rename = "1")]
+    one: Option<serde_saphyr::Spanned<i64>>,
+    #[serde(default)]
+    k1: Option<serde_saphyr::Spanned<vcore::Val>>,
+    #[serde(default)]
+    v: Vec<serde_saphyr::Spanned<Option<f64>>>,
+    #[serde(default)]
+    m: BTreeMap<String, serde_saphyr::Spanned<bool>>,
+}
+
+// ---- scalar widths and serde data-model corners
+
+#[derive(Deserialize)]
+#[allow(dead_code)]
+pub struct UnitS;
+#[derive(Deserialize)]
+#[allow(dead_code)]
+pub struct NewT(i16);
+#[derive(Deserialize)]
+#[allow(dead_code)]
+pub struct TupS(u8, Option<char>, String);
+
+#[derive(Deserialize)]
+#[allow(dead_code)]
+pub struct Exotic {
+    #[serde(default)]
+    a: Option<i8>,
+    #[serde(default, rename = "1")]
+    one: Option<u16>,
+    #[serde(default)]
+    k1: Option<i128>,
+    #[serde(default)]
+    k2: Option<u128>,
+    #[serde(default)]
+    k3: Option<f32>,
+    #[serde(default)]
+    c: Option<char>,
+    #[serde(default)]
+    u: Option<UnitS>,
+    #[serde(default)]
+    n: Option<NewT>,
+    #[serde(default)]
+    t: Option<TupS>,
+    #[serde(default)]
+    s: Option<Cow<'static, str>>,
+    #[serde(default)]
+    b: Option<Option<()>>,
+    #[serde(default)]
+    v: Option<[u8; 2]>,
+    #[serde(default)]
+    m: Option<BTreeMap<i64, bool>>,
+    #[serde(default)]
+    e: Option<Box<Exotic>>,
+    #[serde(default)]
+    y: Option<std::collections::HashMap<String, u64>>,
+    #[serde(default)]
+    f: Option<u64>,
+}
+
+#[derive(Deserialize)]
+#[allow(dead_code)]
+#[serde(tag = "a")]
+pub enum Internal {
+    #[serde(rename = "1")]
+    One { k1: Option<i64> },
+    #[serde(rename = "a")]
+    A { v: Vec<String> },
+    Unit,
+}
+
+#[derive(Deserialize)]
+#[allow(dead_code)]
+#[serde(untagged)]
+pub enum Untagged {
+    I(i64),
+    B(bool),
+    S(String),
+    Seq(Vec<Untagged>),
+    Map(BTreeMap<String, Untagged>),
+    N(()),
+}
+
+#[derive(Deserialize)]
+#[allow(dead_code)]
+#[serde(tag = "a", content = "k1")]
+pub enum Adjacent {
+    #[serde(rename = "1")]
+    One(i64),
+    #[serde(rename = "a")]
+    A(Vec<String>),
+    Unit,
+}
+
+#[derive(Deserialize)]
+#[allow(dead_code)]
+pub struct Flat {
+    #[serde(default)]
+    a: Option<String>,
+    #[serde(flatten)]
+    rest: BTreeMap<String, vcore::Val>,
+}
+
+#[derive(Deserialize)]
+#[allow(dead_code)]
+#[serde(deny_unknown_fields)]
+pub struct FlatTyped {
+    #[serde(default)]
+    k1: Option<i64>,
+    #[serde(flatten)]
+    inner: FlatInner,
+}
+#[derive(Deserialize)]
+#[allow(dead_code)]
+pub struct FlatInner {
+    #[serde(default)]
+    a: Option<vcore::Val>,
+    #[serde(default, rename = "1")]
+    one: Option<vt::En>,
+}
+
+// ---- validating targets (constraints chosen so that ordinary small documents violate some of them)
+
+#[derive(Deserialize, garde::Validate)]
+#[allow(dead_code)]
+pub struct GardeInner {
+    #[serde(default)]
+    #[garde(length(min = 2, max = 4))]
+    a: String,
+    #[serde(default)]
+    #[garde(inner(range(min = 2, max = 5)))]
+    v: Vec<i64>,
+}
+
+#[derive(Deserialize, garde::Validate)]
+#[allow(dead_code)]
+pub struct GardeCfg {
+    #[serde(default)]
+    #[garde(length(min = 2))]
+    a: Option<String>,
+    #[serde(default, rename = "1")]
+    #[garde(range(min = 3, max = 9))]
+    one: Option<i64>,
+    #[serde(default)]
+    #[garde(dive)]
+    k1: Option<GardeInner>,
+    #[serde(default)]
+    #[garde(dive)]
+    v: Vec<GardeInner>,
+    #[serde(default)]
+    #[garde(length(min = 1), inner(ascii))]
+    k2: Vec<String>,
+    #[serde(default)]
+    #[garde(skip)]
+    k3: Option<vcore::Val>,
+}
+
+#[derive(Deserialize, validator::Validate)]
+#[allow(dead_code)]
+pub struct ValidatorInner {
+    #[serde(default)]
+    #[validate(length(min = 2, max = 4))]
+    a: String,
+    #[serde(default)]
+    #[validate(range(min = 2, max = 5))]
+    k1: i64,
+}
+
+#[derive(Deserialize, validator::Validate)]
+#[allow(dead_code)]
+pub struct ValidatorCfg {
+    #[serde(default)]
+    #[validate(length(min = 2))]
+    a: Option<String>,
+    #[serde(default, rename = "1")]
+    #[validate(range(min = 3, max = 9))]
+    one: Option<i64>,
+    #[serde(default)]
+    #[validate(nested)]
+    k1: Option<ValidatorInner>,
+    #[serde(default)]
+    #[validate(nested)]
+    v: Vec<ValidatorInner>,
+    #[serde(default)]
+    #[validate(length(min = 1))]
+    k2: Vec<String>,
+    #[serde(default)]
+    k3: Option<vcore::Val>,
+}
+
+macro_rules! t {
+    ($name:expr, $ty:ty) => {
+        Tgt { name: $name, call: own::<$ty> }
+    };
+}
+
+static TARGETS: &[Tgt] = &[
+    // the vcore family
+    t!("Val", vcore::Val),
+    t!("json", serde_json::Value),
+    t!("VecVal", Vec<vcore::Val>),
+    t!("MapStrVal", BTreeMap<String, vcore::Val>),
+    t!("VecString", Vec<String>),
+    t!("VecOptI64", Vec<Option<i64>>),
+    t!("MapStrVecString", BTreeMap<String, Vec<String>>),
+    t!("Rec", vt::Rec),
+    t!("Strict", vt::Strict),
+    t!("En", vt::En),
+    t!("Mixed", vt::Mixed),
+    t!("OptVal", Option<vcore::Val>),
+    t!("String", String),
+    t!("TupU8Str", (u8, String)),
+    t!("Ignored", serde::de::IgnoredAny),
+    t!("MapValVal", BTreeMap<vcore::Val, vcore::Val>),
+    t!("VecPairs", Vec<BTreeMap<String, vcore::Val>>),
+    // borrowed / anchor wrappers / recursive
+    Tgt { name: "Borrowed{&str,Cow,&[u8],Vec<&str>}", call: borrowed },
+    t!("RcDoc{RcAnchor,ArcAnchor,RcWeakAnchor}", RcDoc),
+    Tgt { name: "&str", call: borrowed_str },
+    t!("DeepMap", DeepMap),
+    t!("DeepSeq", DeepSeq),
+    t!("EnumNest", EnumNest),
+    t!("RcNest", RcNest),
+    t!("MapStrVecI64", BTreeMap<String, Vec<i64>>),
+    t!("f64", f64),
+    t!("MapStrDeepSeq", BTreeMap<String, DeepSeq>),
+    // added for the deepening round
+    t!("Kingdom{RcRecursive,RcRecursion}", Kingdom),
+    t!("ArcKingdom{ArcRecursive,ArcRecursion,ArcWeakAnchor}", ArcKingdom),
+    t!("SpannedDoc", SpannedDoc),
+    t!("Spanned<Val>", serde_saphyr::Spanned<vcore::Val>),
+    t!("Exotic{int widths,char,unit,newtype,tuple struct,array,HashMap}", Exotic),
+    t!("Internal(tag)", Internal),
+    t!("Untagged", Untagged),
+    t!("Adjacent(tag,content)", Adjacent),
+    t!("Flat(flatten->map)", Flat),
+    t!("FlatTyped(flatten,deny_unknown)", FlatTyped),
+    t!("Bytes", vt::Bytes),
+    t!("bool", bool),
+    t!("char", char),
+    t!("u8", u8),
+    t!("i128", i128),
+    t!("f32", f32),
+    t!("unit", ()),
+    t!("VecF32", Vec<f32>),
+    Tgt { name: "GardeCfg(*_valid)", call: own_garde::<GardeCfg> },
+    Tgt { name: "ValidatorCfg(*_validate)", call: own_validator::<ValidatorCfg> },
 ];
 
-/// Every target: the vcore family followed by the ones defined here.
-pub fn all() -> Vec<Tgt> {
-    let mut v: Vec<Tgt> = vcore::targets::all().iter().map(Tgt::V).collect();
-    for t in OWN {
-        if let Tgt::Own { name, call } = t {
-            v.push(Tgt::Own { name, call: *call });
-        }
-    }
-    v
+/// Every target.
+pub fn all() -> &'static [Tgt] {
+    TARGETS
 }
 
-pub fn by_name(n: &str) -> Option<Tgt> {
-    all().into_iter().find(|t| t.name() == n)
+pub fn by_name(n: &str) -> Option<&'static Tgt> {
+    TARGETS.iter().find(|t| t.name == n)
 }
 
-/// The nine targets of DESIGN §5 C01 used for the exhaustive cross product.
-pub const CROSS_TARGETS: [&str; 9] = [
+/// The targets of the exhaustive cross product: the nine of DESIGN §5 C01 plus
+/// the two validating families (their `*_valid` / `*_validate` entry points).
+pub const CROSS_TARGETS: [&str; 11] = [
     "Val",
     "json",
     "Ignored",
@@ -436,4 +938,6 @@ pub const CROSS_TARGETS: [&str; 9] = [
     "TupU8Str",
     "Borrowed{&str,Cow,&[u8],Vec<&str>}",
     "RcDoc{RcAnchor,ArcAnchor,RcWeakAnchor}",
+    "GardeCfg(*_valid)",
+    "ValidatorCfg(*_validate)",
 ];
